@@ -6,6 +6,7 @@ import (
 	verifjson "encoding/json"
 	veriffmt "fmt"
 	verifos "os"
+	verifstrings "strings"
 )
 
 type verifStop struct{ msg string }
@@ -76,6 +77,19 @@ func verifReach(label string)    {}
 func verifSymbolic() bool        { return false }
 func verifConcrete(s string) string { return s }
 func verifMapOrder(on bool)      {}
+// verifKnown reports whether the finding with this key is listed as known in
+// /verif/known_findings.jsonl (the main check then excludes exactly its region).
+func verifKnown(key string) bool {
+	for _, k := range verifstrings.Split(verifos.Getenv("VERIF_KNOWN"), ",") {
+		if k == key {
+			return true
+		}
+	}
+	return false
+}
+func verifAnd(a, b bool) bool     { return a && b }
+func verifOr(a, b bool) bool      { return a || b }
+func verifImplies(a, b bool) bool { return !a || b }
 func verifObserve(label string, v any) {
 	veriffmt.Printf("VERIF-OBSERVE %s=%v\n", label, v)
 }
